@@ -120,7 +120,7 @@ let do_ws role mode maxframe recvmax recvtext hex cuts =
   if isstream then Printf.printf "rxs %s\n" (hexs (List.concat del))
   else List.iter (fun m -> Printf.printf "rx %s\n" (hexs m)) del;
   List.iter (function ETx (op, p) -> print_tx server op p | _ -> ()) !evs;
-  print_endline "end err=7"
+  print_endline "end done=1"
 
 let do_wssend role mode fragsize sendtext hex =
   let server = role = "s" and isstream = mode = "s" in
